@@ -11,5 +11,5 @@ echo "--- demo with change (must fail)"; PYTHONPATH=/repo/src /venv/bin/python $
 echo "--- check $pid with change"
 VF_EVIDENCE_DIR=/verif/.work/seed_ev VF_REPLAY_DIR=/verif/.work/seed_rp /verif/bin/check $pid > $dst/check_output.txt 2>&1; rc=$?
 grep -E "VIOLATION|obligation:|ENGINE|UNDECIDED|DEMOTED|^C[0-9]+:" $dst/check_output.txt | head -12; echo "check exit $rc"
-git checkout -- . ; git status --short | head -3
+git checkout -- . ; git clean -fdq src; git status --short | head -3
 echo "{\"demo_exit_unchanged\": $base, \"demo_exit_with_change\": $withc, \"check_exit_with_change\": $rc}" > $dst/confirm.json
